@@ -82,3 +82,19 @@ def poly_cfg(x, *, cfg):
 @onnx_function
 def ident_fn(x):
     return x
+
+
+# two different targets given the same display name (documented `type=` override)
+@onnx_function(type="Block")
+def block_scale(x):
+    return x * 3.0 + 1.0
+
+
+@onnx_function(type="Block")
+def block_mix(x, y):
+    return x * y - 2.0
+
+
+@onnx_function
+def near_equal_literals(x):
+    return (x + 1.0) * 1.000000001 - 3.14159265 + 3.141592653589793
